@@ -3,8 +3,10 @@ Props/C09.lean — Close, cancellation and use-after-close terminate and behave 
 -/
 import KafkaVerif.Model.WriterClose
 import KafkaVerif.Lemmas.WriterClose
+import KafkaVerif.Lemmas.WriterTrack
 import KafkaVerif.Model.ReaderClose
 import KafkaVerif.Lemmas.ReaderClose
+import KafkaVerif.Lemmas.GroupRunMeasure
 
 namespace KV.C09
 open KV.WriterClose
@@ -182,22 +184,56 @@ theorem measure_decreases (cfg : Cfg) (s s' : State) (e : Event)
       · simp at hstep
     · simp at hstep
 
-/-- **close_terminates (partial)** — Writer.Close returns after finitely many steps.
+/-- **close_terminates** — Writer.Close returns after finitely many steps, in every interleaving.
 
-Full statement (DESIGN §7): in every reachable state of the repaired protocol in which Close waits, `CloseReturn` or a
-progress event is enabled, and every progress event decreases `mu`; hence Close returns after at most `mu` further
-library steps, whatever the interleaving with newly arriving calls (each adds a bounded amount of work: it is
-refused).  Proved here: exactly that, except that the third disjunct `WaitingBlocked` (a synchronous call waiting
-for a message that no live goroutine holds) is excluded by the message-tracking invariant `accepted ⊆ completed ∪
-held-by-a-live-partition-writer`, see `close_terminates` below when present / docs/notes/C09.md otherwise. -/
-theorem close_terminates_partial (cfg : Cfg) (hfix : cfg.fixed = true) (s : State) (hr : Reachable cfg s)
+In every reachable state of the repaired protocol in which Close waits, `CloseReturn` or a progress event (an
+internal event of the library, or the transport's answer to a metadata lookup it already holds) is enabled — Close
+is never blocked — and every internal event strictly decreases the measure `mu`.  Hence from such a state at most
+`mu cfg s` further internal events can happen before `CloseReturn` is the only thing left; newly arriving calls
+are refused (`enter_after_close_ErrClosedPipe`) and add a bounded amount (3) to the measure each.
+The third disjunct of `progress_core` (`WaitingBlocked`) is excluded by the message-tracking invariant
+(`Lemmas/WriterTrack.lean`, `reachable_track`). -/
+theorem close_terminates (cfg : Cfg) (hfix : cfg.fixed = true) (s : State) (hr : Reachable cfg s)
     (hwait : s.close = 2) :
-    ((step cfg s .closeReturn).isSome ∨ (∃ e, e.progress = true ∧ (step cfg s e).isSome) ∨ WaitingBlocked s) ∧
+    ((step cfg s .closeReturn).isSome ∨ (∃ e, e.progress = true ∧ (step cfg s e).isSome)) ∧
     (∀ e s', e.internal = true → step cfg s e = some s' → mu cfg s' < mu cfg s) := by
   have hclosed : s.closed = true := (reachable_closed_iff cfg s hr).mp (by omega)
-  refine ⟨progress_core cfg s hwait (reachable_noOpen cfg hfix s hr hclosed), ?_⟩
-  intro e s' he hs
-  exact measure_decreases cfg s s' e hfix hclosed he hs
+  refine ⟨?_, ?_⟩
+  · rcases progress_core cfg s hwait (reachable_noOpen cfg hfix s hr hclosed) with h | h | h
+    · exact Or.inl h
+    · exact Or.inr h
+    · exact absurd h (not_waitingBlocked s (reachable_track cfg s hr))
+  · intro e s' he hs
+    exact measure_decreases cfg s s' e hfix hclosed he hs
+
+/-- **all_completed_before_close_return** — when `CloseReturn` fires, every message that `batchMessages` accepted
+earlier has had its Completion callback (and its batch was closed) with an outcome `why`; no sender or timer
+goroutine is alive and no call is between enter and leave.  (`attemptNext_why`: `why = acked` iff the last attempt
+was acknowledged, `permanent` iff it failed permanently, `exhausted` iff it failed temporarily and it was attempt
+number ≥ MaxAttempts.) -/
+theorem all_completed_before_close_return (cfg : Cfg) (s s' : State) (hr : Reachable cfg s)
+    (hs : step cfg s .closeReturn = some s') :
+    (∀ m ∈ s.accepted, ∃ why, (m, why) ∈ s.completed) ∧
+    (∀ p ∈ s.writers, p.live = false) ∧ s.awaiters = [] ∧ (∀ c ∈ s.calls, c.holdsGroup = false) := by
+  simp only [step, Option.ite_none_right_eq_some, Bool.and_eq_true, decide_eq_true_eq] at hs
+  obtain ⟨⟨_, hwg⟩, _⟩ := hs
+  simp only [State.wg] at hwg
+  have h1 : s.calls.countP Call.holdsGroup = 0 := by omega
+  have h2 : s.writers.countP PW.live = 0 := by omega
+  have h3 : s.awaiters.length = 0 := by omega
+  rw [List.countP_eq_zero] at h1 h2
+  have hdead : ∀ p ∈ s.writers, p.live = false := by
+    intro p hp; cases hl : p.live with
+    | false => rfl
+    | true => exact absurd hl (h2 p hp)
+  refine ⟨?_, hdead, List.length_eq_zero_iff.mp h3, ?_⟩
+  · intro m hm
+    rcases (reachable_track cfg s hr).t1 m hm with ⟨x, hx, rfl⟩ | ⟨p, hp, hl, _⟩
+    · exact ⟨x.2, hx⟩
+    · simp [hdead p hp] at hl
+  · intro c hc; cases hg : c.holdsGroup with
+    | false => rfl
+    | true => exact absurd hg (h1 c hc)
 
 example : ∃ s, Reachable ⟨3, 2, true, false⟩ s ∧ s.close = 2 ∧ s.wg ≠ 0 :=
   ⟨_, ⟨[.callBegin 1 [(10, 0)] false, .enter 1, .batch 1, .closeBegin, .closeMark], rfl⟩, by decide, by decide⟩
@@ -387,5 +423,69 @@ theorem reader_close_progress_partial (g : Bool) (s : State) (hr : Reachable g s
           · exact ⟨.leave m, by simp, by simp [step, h1, hgen, hmem, hcn]⟩
           · exact ⟨.coordOpen, by simp, by simp [step, h1]⟩
         · exfalso; exact absurd (reachable_loop_le g s hr) (by omega)
+
+end KV.C09
+
+/-! ## Termination of Reader / ConsumerGroup close -/
+namespace KV.C09
+open KV.ReaderClose
+
+/-- work left on the closing side of a Reader -/
+def closeNu (s : State) : Nat :=
+  s.fetchers + s.conns + s.loop + (if s.gen then 1 else 0) + (if s.member.isSome then 1 else 0) +
+  (if s.msgsClosed then 0 else 1) + (3 - s.close)
+
+/-- the steps by which a Reader shuts down -/
+def closingStep : Event → Bool
+  | .closeMark | .closeMsgs | .closeReturn | .fetcherExit | .connClose | .genEnd | .leave _ | .loopExit => true
+  | _ => false
+
+/-- **reader_close_terminates** (Reader side) — every shut-down step of `Reader.Close` (stop mark, fetcher exit,
+connection close, generation end, LeaveGroup, exit of the group loop, close of `msgs`, return) strictly decreases
+`closeNu`, and while Close waits one of them (or the opening of the connection LeaveGroup needs) is enabled
+(`reader_close_progress_partial`).  The only events that can increase `closeNu` after the mark are connection opens:
+by a fetcher that is still alive (`dial`, bounded by `fetchers`: a cancelled fetcher does not redial) and by the
+group loop (`coordOpen`), whose own steps are bounded by `group_run_terminates` below. -/
+theorem reader_close_terminates (s s' : State) (e : Event) (he : closingStep e = true) (hs : step s e = some s')
+    (hcl : s.close ≤ 3) : closeNu s' < closeNu s := by
+  cases e <;> simp only [closingStep] at he <;> try contradiction
+  all_goals
+    simp only [step, Option.ite_none_right_eq_some, Option.some.injEq] at hs
+    obtain ⟨hg, rfl⟩ := hs
+    (try simp only [Bool.and_eq_true, decide_eq_true_eq, Bool.not_eq_true'] at hg)
+    simp only [closeNu]
+    (try simp_all)
+    (try omega)
+
+example : closeNu (State.init true) = 5 := by decide
+
+end KV.C09
+
+namespace KV.C09
+open KV.Group
+
+/-- **group_run_terminates** — `ConsumerGroup.run` (GroupRun model of the group builder: phases of
+`nextGeneration`, `leaveGroup`, error delivery, back-off): every step of the `run` goroutine strictly decreases
+`runMu = nextWaiting · (nWatch+40) + rank pc`, and no other event except a new `Next` call of the application
+increases it.  After `Close` a `Next` call returns ErrGroupClosed, so the goroutine makes at most
+`runMu` further steps before it is `exited` — the only state in which `closeRet` is enabled. -/
+theorem group_run_terminates (c : Group.Cfg) (s s' : St) (e : Ev) (h : Group.step c s e = some s') :
+    (e.runLoop = true → runMu c s' < runMu c s) ∧ (e ≠ .nextCall → runMu c s' ≤ runMu c s) ∧
+    (e = .closeRet → s.pc = .exited) := by
+  refine ⟨fun he => runMu_decreases c s s' e he h, fun hn => runMu_le c s s' e hn h, ?_⟩
+  rintro rfl
+  simp only [Group.step, Option.ite_none_right_eq_some, Bool.and_eq_true, beq_iff_eq] at h
+  exact h.1.1
+
+/-- **group_run_progress_partial** — once the group is closed the `run` goroutine always has an enabled step of
+its own (the coordinator answers it waits for count as such: every network call returns), except inside
+`gen.close()` (waits for the generation's functions: C15 `close_returns_after_all_exits`) and while it starts the
+generation's internal functions.  Partial: those two phases, and the structural facts `coord stage ≤ 2`, `a
+generation exists` are hypotheses here (they are invariants of C15's model). -/
+theorem group_run_progress_partial (c : Group.Cfg) (s : St) (hc : s.closedCG = true) (hx : s.pc ≠ .exited)
+    (hw : ∀ ret r, s.pc ≠ .waiting ret r) (hs : ∀ k, s.pc ≠ .starting k) (hcur : 0 < s.gens)
+    (hk : ∀ k lv, s.pc = .coord k lv → k ≤ 2) :
+    ∃ e, e.runLoop = true ∧ (Group.step c s e).isSome :=
+  run_progress_when_closed c s hc hx hw hs hcur hk
 
 end KV.C09
